@@ -212,7 +212,7 @@ func init() {
 		// j1: a plain job; j2: a job whose limits and metric relabel rules Prometheus applies to what it receives
 		// (they must not change what the proxy relays)
 		if err := sc.PushConfig("scrape_configs:\n- job_name: j1\n  scrape_timeout: 10s\n  static_configs:\n  - targets: [\"x:1\"]\n" +
-			"- job_name: j2\n  scrape_timeout: 10s\n  sample_limit: 3\n  label_limit: 1\n  label_value_length_limit: 5\n  metric_relabel_configs:\n  - {source_labels: [__name__], regex: \"m.*|metric_number_1.*\", action: drop}\n  static_configs:\n  - targets: [\"y:1\"]\n"); err != nil {
+			"- job_name: j2\n  scrape_timeout: 10s\n  sample_limit: 3\n  body_size_limit: 1KB\n  label_limit: 1\n  label_value_length_limit: 5\n  metric_relabel_configs:\n  - {source_labels: [__name__], regex: \"m.*|metric_number_1.*\", action: drop}\n  static_configs:\n  - targets: [\"y:1\"]\n"); err != nil {
 			chk.Fatalf("%v", err)
 		}
 		if err := sc.Update(map[string][]*target.Target{"j1": {c14Target(1, [2]int64{1, 1})}, "j2": {c14Target(2, [2]int64{1, 1})}}); err != nil {
